@@ -789,14 +789,23 @@ func registerVFS() {
 	harnessIntrinsics["verif_fs_digest"] = func(in *Interp, fr *frame, a []Value) Value {
 		fs := in.vfs()
 		root := cleanPath(in.concreteStr(a[0], "verif_fs_digest root"))
-		excl := cleanPath(in.concreteStr(a[1], "verif_fs_digest exclude"))
+		var excls []string
+		for _, e := range strings.Split(in.concreteStr(a[1], "verif_fs_digest exclude"), ":") {
+			excls = append(excls, cleanPath(e))
+		}
 		links := map[*vnode]int{}
 		for _, n := range fs.nodes {
 			links[n]++
 		}
 		var ks []string
 		for k, n := range fs.nodes {
-			if k == excl || strings.HasPrefix(k, excl+"/") {
+			skip := false
+			for _, excl := range excls {
+				if k == excl || strings.HasPrefix(k, excl+"/") {
+					skip = true
+				}
+			}
+			if skip {
 				continue
 			}
 			if k != root && !strings.HasPrefix(k, root+"/") {
